@@ -1072,6 +1072,43 @@ def decscale_rule(ctx):
                 if any(a[0] == 'agg' and a[1].endswith('::Range') for a in ro.atoms) and any(call_matches(c, ['::checked_sub']) for c in ro.calls):
                     prefixes.append(ints_ == [0, 1] and {x for x in ro.flags if x.startswith('arith:')} <= {'arith:AddWithOverflow', 'arith:Add'})
     prefix_ok = bool(prefixes) and all(prefixes)
+    # ... the sign byte is 0x00 for a mantissa whose top bit is clear and 0xFF otherwise, and after the padding the whole
+    # mantissa is written (the arm's start index is the constant 0)
+    sign_ok = None
+    for b in mod:
+        if not any('can_truncate_without_altering_number' in cname(t) for bb, t in b.calls()):
+            continue
+        for bb in sorted(b.live_blocks()):
+            if b.is_cleanup(bb):
+                continue
+            for s_ in b.stmts(bb):
+                if 'assign' in s_ and not s_['assign'].get('p') and s_['rv']['k'] == 'use' and const_int(s_['rv']['op']) in (0, 255) and b.local_ty(s_['assign']['l']) == 'u8':
+                    v_ = const_int(s_['rv']['op'])
+                    gs_ = [g for g in cmp_guards(b, bb) if not g.get('mirrored') and any(x.startswith('arith:BitAnd') for x in g['l'].flags) and 128 in g['l'].consts() and g['r'].consts() == {0}]
+                    if not gs_:
+                        continue
+                    want_ = 'Eq' if v_ == 0 else 'Ne'
+                    good_ = gs_[-1]['op'] == want_ if len(gs_) == 1 else any(g['op'] == want_ for g in gs_) and not any(g['op'] == ('Ne' if want_ == 'Eq' else 'Eq') for g in gs_)
+                    sign_ok = good_ if sign_ok is None else (sign_ok and good_)
+    whole = None
+    for b in mod:
+        if not any('can_truncate_without_altering_number' in cname(t) for bb, t in b.calls()):
+            continue
+        for bb, t in b.calls():
+            if (t.get('callee') or '') != 'std::io::Write::write_all' or b.is_cleanup(bb):
+                continue
+            ao = origin(b, t['args'][1])
+            if 'to_be' not in ao.flags:
+                continue
+            for c in ao.calls:
+                if call_matches(c, ['Index::index', 'Index<I>>::index', 'Index<I> for [T; N]>::index']):
+                    ro = origin(b, c['args'][1])
+                    if any(a[0] == 'agg' and a[1].endswith('RangeFrom') for a in ro.atoms):
+                        whole = sorted(x for x in ro.consts() if isinstance(x, int) and not isinstance(x, bool)) == [0] and not ro.has_arith()
+    ctx.ob('DECSCALE', 'serialize/mantissa-written-from-its-computed-start', bool(whole), loc0,
+           'the mantissa bytes written are buf[start..] with start = the truncation point, the fit-checked 16 - size, or the constant 0 behind the padding: %s' % whole)
+    ctx.ob('DECSCALE', 'serialize/sign-byte-follows-the-top-bit', bool(sign_ok), loc0,
+           'padding byte 0x00 under (buf[0] & 0x80) == 0 and 0xFF otherwise: %s' % sign_ok)
     ctx.ob('DECSCALE', 'serialize/fixed-wider-than-the-mantissa-is-sign-extended', pad_ok, loc0,
            'a loop writes one sign byte (0x00 / 0xFF) per missing position and propagates a failed write: %s' % pad_ok)
     ctx.ob('DECSCALE', 'serialize/fit-check-prefix-is-dropped-bytes-plus-one', prefix_ok, loc0,
